@@ -5,8 +5,15 @@
 // scripted per-datagram fault schedule (drop / dup / delay / flip / trunc, both directions, handshake
 // included). One op line = one complete scenario; its result is the canonical observation.
 //
-//	run cl=<plain|chrome> v=<1|2> seed=<n> sc=<nc>,<ns>,<nd>,<maxKiB> faults=<dir>:<idx>:<kind>:<arg>,…|- [x=<cwKiB>,<one>,<boStart>,<boDur>,<dgi>]
-//	 => dial=<err> c2s=<id>:<len>/<want>:<sha8>/<wantsha8>:<pfx>:<err>;… s2c=… dg=<got>/<sent>:<dups>:<bad> t=<ms>
+//	run cl=<plain|chrome> v=<1|2> seed=<n> sc=<nc>,<ns>,<nd>,<maxKiB> faults=<dir>:<idx>:<kind>:<arg>,…|- [x=<cwKiB>,<one>,<boStart>,<boDur>,<dgi>] [y=<idleMs>,<ka>,<quietMs>,<who>,<outDir>,<outMs>]
+//	 => dial=<err> c2s=<id>:<len>/<want>:<sha8>/<wantsha8>:<pfx>:<err>;… s2c=… dg=<got>/<sent>:<dups>:<bad> t=<ms> [p2=<obs> conn=<client ctx err>,<server ctx err>]
+//
+// y= (round 4) is a second phase on the same connection: both endpoints negotiate the idle timeout idleMs (ka=1: with
+// keep-alives), and once every phase-1 transfer is complete — so the tail of the traffic is ACK-only — nothing is sent for
+// quietMs; then endpoint `who` (0 client, 1 server) opens one more unidirectional stream and writes it, and from that
+// very moment the path is dead for outMs in the direction(s) outDir (0 none, 1 only the direction TOWARDS the writer,
+// 2 both). The observation adds what the phase-2 reader got and whether both connections are still alive well after
+// the outage.
 //
 // Everything about the scenario (stream sizes, contents, Write/Read chunkings) is derived from `seed`.
 // Nothing here is a proof: it exercises the liveness sentence of the property and feeds the monitors.
@@ -55,6 +62,14 @@ type scenario struct {
 	boStart int // path blackout (both directions) from boStart ms after the start ...
 	boDur   int // ... for boDur ms (far below the idle timeout)
 	dgi     int // DATAGRAMs are sent one every dgi ms while the streams are being transferred (0: all at once)
+	// round 4 (idle timer / keep-alive glue); idleMs = 0: off
+	hasY    bool
+	idleMs  int // MaxIdleTimeout of both endpoints
+	ka      int // 1: KeepAlivePeriod = idleMs/2 on both endpoints
+	quietMs int // silence between the end of phase 1 and the phase-2 write
+	who     int // phase-2 writer: 0 client, 1 server
+	outDir  int // 0 no outage, 1 the direction towards the writer is dead, 2 both directions are dead
+	outMs   int // ... for outMs ms from the moment of the phase-2 write
 }
 
 func (s scenario) String() string {
@@ -70,13 +85,16 @@ func (s scenario) String() string {
 	if s.cwKiB != 0 || s.one != 0 || s.boDur != 0 || s.dgi != 0 {
 		out += fmt.Sprintf(" x=%d,%d,%d,%d,%d", s.cwKiB, s.one, s.boStart, s.boDur, s.dgi)
 	}
+	if s.hasY {
+		out += fmt.Sprintf(" y=%d,%d,%d,%d,%d,%d", s.idleMs, s.ka, s.quietMs, s.who, s.outDir, s.outMs)
+	}
 	return out
 }
 
 func parseScenario(op string) (scenario, bool) {
 	var s scenario
 	f := strings.Fields(op)
-	if (len(f) != 6 && len(f) != 7) || f[0] != "run" {
+	if len(f) < 6 || len(f) > 8 || f[0] != "run" {
 		return s, false
 	}
 	kv := map[string]string{}
@@ -105,6 +123,16 @@ func parseScenario(op string) (scenario, bool) {
 			return s, false
 		}
 		if s.cwKiB < 0 || s.cwKiB > 4096 || s.boStart < 0 || s.boDur < 0 || s.boDur > 5000 || s.dgi < 0 || s.dgi > 1000 {
+			return s, false
+		}
+	}
+	if y, ok := kv["y"]; ok {
+		if n, _ := fmt.Sscanf(y, "%d,%d,%d,%d,%d,%d", &s.idleMs, &s.ka, &s.quietMs, &s.who, &s.outDir, &s.outMs); n != 6 {
+			return s, false
+		}
+		s.hasY = true
+		if s.idleMs < 1000 || s.idleMs > 20000 || s.ka < 0 || s.ka > 1 || s.quietMs < 0 || s.quietMs > 60000 ||
+			s.who < 0 || s.who > 1 || s.outDir < 0 || s.outDir > 2 || s.outMs < 0 || s.outMs > 20000 {
 			return s, false
 		}
 	}
@@ -292,17 +320,33 @@ func runScenario(t *testing.T, sc scenario) (res string) {
 			conf.InitialStreamReceiveWindow = 2 << 20
 			conf.MaxStreamReceiveWindow = 2 << 20
 		}
+		if sc.hasY {
+			conf.MaxIdleTimeout = time.Duration(sc.idleMs) * time.Millisecond
+			if sc.ka == 1 {
+				conf.KeepAlivePeriod = conf.MaxIdleTimeout / 2
+			}
+		}
 		env, err := e2e.Start(e2e.Setup{Spec: spec, Faults: sc.faults, ServerConf: conf, ClientConf: conf})
 		if err != nil {
 			res = "setup-error start"
 			return
 		}
 		start := time.Now()
-		if sc.boDur > 0 { // a short blackout of the whole path: every datagram sent in the interval is lost
+		var outage struct { // phase-2 outage window (set by the main goroutine, read by the router)
+			sync.Mutex
+			dead  [2]bool
+			until time.Time
+		}
+		if sc.boDur > 0 || (sc.hasY && sc.outDir != 0) {
+			// a short blackout of the whole path: every datagram sent in the interval is lost
 			from, to := time.Duration(sc.boStart)*time.Millisecond, time.Duration(sc.boStart+sc.boDur)*time.Millisecond
-			env.Net.Tap = func(e2e.Dir, int, []byte) bool {
-				t := time.Since(start)
-				return t < from || t >= to
+			env.Net.Tap = func(d e2e.Dir, _ int, _ []byte) bool {
+				if t := time.Since(start); sc.boDur > 0 && t >= from && t < to {
+					return false
+				}
+				outage.Lock()
+				defer outage.Unlock()
+				return !(outage.dead[d] && time.Now().Before(outage.until))
 			}
 		}
 		deadline := start.Add(runDeadline)
@@ -445,13 +489,26 @@ func runScenario(t *testing.T, sc scenario) (res string) {
 		}
 		wg.Wait()
 		elapsed := time.Since(start)
-		time.Sleep(300 * time.Millisecond) // let in-flight datagrams and ACKs arrive
+		sconn := <-serverConn
+		p2 := ""
+		if sc.hasY {
+			p2 = " p2=- conn=-,-"
+			if c != nil && sconn != nil {
+				p2 = runPhase2(sc, c, sconn, func(dirs [2]bool, d time.Duration) {
+					outage.Lock()
+					outage.dead, outage.until = dirs, time.Now().Add(d)
+					outage.Unlock()
+				}, note)
+			}
+		} else {
+			time.Sleep(300 * time.Millisecond) // let in-flight datagrams and ACKs arrive
+		}
 		cancel()
 		if c != nil {
 			c.CloseWithError(0, "")
 		}
-		if sc := <-serverConn; sc != nil {
-			sc.CloseWithError(0, "")
+		if sconn != nil {
+			sconn.CloseWithError(0, "")
 		}
 		bgwg.Wait()
 		env.Close()
@@ -470,9 +527,62 @@ func runScenario(t *testing.T, sc scenario) (res string) {
 		if len(werrs) > 0 {
 			we = strings.Join(werrs, ",")
 		}
-		res = fmt.Sprintf("dial=%s c2s=%s s2c=%s dg=%d/%d:%d:%d werr=%s t=%d", errClass(derr), fmtObs(c2s), fmtObs(s2c), got, sc.nd, dups, dgBad, we, elapsed.Milliseconds())
+		res = fmt.Sprintf("dial=%s c2s=%s s2c=%s dg=%d/%d:%d:%d werr=%s t=%d", errClass(derr), fmtObs(c2s), fmtObs(s2c), got, sc.nd, dups, dgBad, we, elapsed.Milliseconds()) + p2
 	})
 	return res
+}
+
+// runPhase2: silence, then one more unidirectional stream from `who` while the path (towards the writer, or both
+// ways) is dead for outMs; finally, well after the outage, are both connections still alive?
+func runPhase2(sc scenario, cconn, sconn *quic.Conn, setOutage func([2]bool, time.Duration), note func(error, string)) string {
+	time.Sleep(time.Duration(sc.quietMs) * time.Millisecond)
+	wconn, rconn, towardsWriter := cconn, sconn, e2e.ToClient
+	if sc.who == 1 {
+		wconn, rconn, towardsWriter = sconn, cconn, e2e.ToServer
+	}
+	outDur := time.Duration(sc.outMs) * time.Millisecond
+	var dead [2]bool
+	switch sc.outDir {
+	case 1:
+		dead[towardsWriter] = true
+	case 2:
+		dead = [2]bool{true, true}
+	}
+	t2 := time.Now()
+	deadline := t2.Add(60 * time.Second)
+	ctx, cancel := context.WithDeadline(context.Background(), deadline)
+	defer cancel()
+	setOutage(dead, outDur)
+	data, r := streamPlan(sc.seed, 2+sc.who, 0, 24)
+	var wg sync.WaitGroup
+	obs := "-"
+	wg.Add(2)
+	go func() {
+		defer wg.Done()
+		s, err := wconn.OpenUniStreamSync(ctx)
+		if err != nil {
+			note(err, "p2-open")
+			return
+		}
+		note(writeAll(s, data, r, deadline, false), "p2-write")
+	}()
+	go func() {
+		defer wg.Done()
+		s, err := rconn.AcceptUniStream(ctx)
+		if err != nil {
+			note(err, "p2-accept")
+			return
+		}
+		o := readAll(s, int64(s.StreamID()), data, vh.NewRand(sc.seed^0x9e3779b97f4a7c15), deadline)
+		obs = fmtObs([]streamObs{o})
+	}()
+	wg.Wait()
+	// the writer's first probe after the outage comes (PTO back-off) at most at t2 + 2*outMs + one PTO; its
+	// acknowledgement is back one round trip later
+	if rest := time.Until(t2.Add(2*outDur + 1500*time.Millisecond)); rest > 0 {
+		time.Sleep(rest)
+	}
+	return fmt.Sprintf(" p2=%s conn=%s,%s", obs, errClass(context.Cause(cconn.Context())), errClass(context.Cause(sconn.Context())))
 }
 
 // ---------------------------------------------------------------- runner / generator
@@ -539,8 +649,54 @@ func buildEnum(seed uint64) []scenario {
 	return out
 }
 
+// hdrBytes: the long header of the first datagram of either direction lies within its first hdrBytes bytes
+// (flags, version, DCID length + DCID (8 / 4), SCID length + SCID (4 / 0), token length, length, packet number).
+const hdrBytes = 28
+
+// header-field corruption (round 4): ONE bit of ONE header byte of the first (second) datagram of a direction is
+// flipped. Such a datagram is not simply lost: the receiver parses the unauthenticated header first and may
+// create / route / key state from the corrupted field (a connection created for a wrong Source or Destination
+// Connection ID, a Version Negotiation answer, a different packet type) before authentication fails, and has to
+// recover when the retransmission arrives. Enumerated, not sampled: position k of the cycle is a fixed
+// (client, version, direction, datagram, byte); the bit rotates with the run seed (thorough: all 8 bits).
+var hdrEnum struct {
+	once  sync.Once
+	queue []scenario
+	pos   int
+}
+
+func buildHdrEnum(seed uint64, allBits bool) []scenario {
+	r := vh.NewRand(seed ^ 0x2545f4914f6cdd1d)
+	var out []scenario
+	add := func(cl string, v, d, idx int) {
+		for b := 0; b < hdrBytes; b++ {
+			bits := []int{int(seed*3+uint64(b*5+v+d)) % 8}
+			if allBits {
+				bits = []int{0, 1, 2, 3, 4, 5, 6, 7}
+			}
+			for _, bit := range bits {
+				out = append(out, scenario{client: cl, version: v, seed: r.U64() >> 1, nc: 1, ns: 1, nd: 1, maxKiB: 8,
+					faults: []e2e.Fault{{Dir: e2e.Dir(d), Index: idx, Kind: "flip", Arg: b*8 + bit}}})
+			}
+		}
+	}
+	// most exposed first: the client's very first Initial (non-empty connection IDs: plain client), both versions
+	add("plain", 1, 0, 0)
+	add("plain", 2, 0, 0)
+	add("plain", 1, 1, 0)
+	add("plain", 2, 1, 0)
+	add("chrome", 1, 0, 0)
+	add("chrome", 2, 0, 0)
+	add("chrome", 1, 1, 0)
+	add("chrome", 2, 1, 0)
+	add("plain", 1, 0, 1)
+	add("plain", 1, 1, 1)
+	return out
+}
+
 func (rn *runner) GenOp(r *vh.Rand, i int) string {
-	if os.Getenv("VH_TIER") == "thorough" {
+	thorough := os.Getenv("VH_TIER") == "thorough"
+	if thorough {
 		enum.once.Do(func() { enum.queue = buildEnum(vh.EnvU64("VH_SEED", 1)) })
 		if enum.pos < len(enum.queue) {
 			s := enum.queue[enum.pos]
@@ -548,7 +704,15 @@ func (rn *runner) GenOp(r *vh.Rand, i int) string {
 			return s.String()
 		}
 	}
-	switch r.Pick(52, 16, 16, 16) {
+	hdrEnum.once.Do(func() { hdrEnum.queue = buildHdrEnum(vh.EnvU64("VH_SEED", 1), thorough) })
+	if i < 2 || (thorough && hdrEnum.pos < len(hdrEnum.queue)) { // the first two scenarios of every case continue the cycle
+		s := hdrEnum.queue[hdrEnum.pos%len(hdrEnum.queue)]
+		hdrEnum.pos++
+		return s.String()
+	}
+	switch r.Pick(42, 14, 14, 14, 16) {
+	case 4:
+		return genIdle(r).String()
 	case 1: // connection-window limited: several streams, each handed over with one Write + Close
 		return scenario{client: []string{"plain", "chrome"}[r.Pick(70, 30)], version: 1 + r.Pick(60, 40), seed: r.U64() >> 1,
 			nc: int(r.Range(2, 4)), ns: int(r.Range(0, 2)), nd: 0, maxKiB: 300,
@@ -588,6 +752,60 @@ func (rn *runner) GenOp(r *vh.Rand, i int) string {
 		sc.faults = append(sc.faults, e2e.Fault{Dir: e2e.Dir(d), Index: idx, Kind: k, Arg: faultArg(k, r)})
 	}
 	return sc.String()
+}
+
+// genIdle: phase-2 scenarios (y=). Only parameter combinations for which a conforming endpoint MUST keep the
+// connection (the oracle re-checks the same inequalities, margin 1 s): without keep-alives the silence is shorter
+// than the idle timeout T; an outage of the direction towards the writer lasts at most (T-1s)/2 (the writer restarted
+// its idle timer when it sent the first ack-eliciting packet after the silence, RFC 9000 10.1, and its first probe
+// after the outage comes at most at 2*outage + PTO because of the PTO back-off); an outage of both directions
+// additionally has silence + 2*outage <= T-1s (the reader has heard nothing since the end of phase 1). With
+// keep-alives (period T/2) the silence may be several T.
+func genIdle(r *vh.Rand) scenario {
+	sc := scenario{client: []string{"plain", "chrome"}[r.Pick(70, 30)], version: 1 + r.Pick(60, 40), seed: r.U64() >> 1,
+		nc: int(r.Range(0, 2)), ns: int(r.Range(0, 2)), nd: int(r.Range(0, 2)), maxKiB: []int{8, 60}[r.Pick(60, 40)], hasY: true}
+	if sc.nc+sc.ns == 0 {
+		sc.nc = 1
+	}
+	T := int(r.Range(4000, 9000))
+	const M = 1000
+	sc.idleMs, sc.ka, sc.who, sc.outDir = T, r.Pick(65, 35), r.Intn(2), r.Pick(20, 50, 30)
+	rng := func(lo, hi int) int {
+		if hi <= lo {
+			return lo
+		}
+		return int(r.Range(int64(lo), int64(hi)))
+	}
+	if sc.ka == 1 {
+		sc.quietMs = rng(T, 3*T)
+		switch sc.outDir {
+		case 1:
+			sc.outMs = rng(100, (T-M)/2)
+		case 2:
+			sc.outMs = rng(100, (T/2-M)/2)
+		}
+	} else {
+		switch sc.outDir {
+		case 0:
+			sc.quietMs = rng(T/2, T-M)
+		case 1:
+			if r.Pick(70, 30) == 0 { // silence + outage exceeds T although each is far below it
+				sc.outMs = rng(M+300, (T-M)/2)
+				sc.quietMs = rng(T-sc.outMs+200, T-M)
+			} else {
+				sc.outMs = rng(0, (T-M)/2)
+				sc.quietMs = rng(0, T-M)
+			}
+		case 2:
+			sc.outMs = rng(100, (T-M)/2-100)
+			sc.quietMs = rng(0, T-M-2*sc.outMs)
+		}
+	}
+	if r.Pick(70, 30) == 1 { // one harmless phase-1 fault
+		k := []string{"drop", "dup", "flip", "trunc"}[r.Intn(4)]
+		sc.faults = []e2e.Fault{{Dir: e2e.Dir(r.Intn(2)), Index: r.Intn(12), Kind: k, Arg: faultArg(k, r)}}
+	}
+	return sc
 }
 
 func (rn *runner) Exec(op string) string {
